@@ -78,6 +78,41 @@ def type_confusions(fnode_or_stmts, bytes_names, bytes_exprs=()):
             nodes.extend(ast.walk(s))
     else:
         nodes = list(walk_body(fnode_or_stmts))
+        # light local type propagation: x = b[0] / first, last = b[0], b[-1] / s = b[:1]
+        bytes_names = set(bytes_names)
+        local_types = {}
+        for n in nodes:
+            if isinstance(n, ast.Assign) and len(n.targets) == 1:
+                t, v = n.targets[0], n.value
+                pairs = []
+                if isinstance(t, ast.Name):
+                    pairs = [(t, v)]
+                elif isinstance(t, ast.Tuple) and isinstance(v, ast.Tuple) and len(t.elts) == len(v.elts):
+                    pairs = [(a, b) for a, b in zip(t.elts, v.elts) if isinstance(a, ast.Name)]
+                for a, b in pairs:
+                    ty = _vtype(b, bytes_names, bytes_exprs)
+                    if ty and a.id not in bytes_names:
+                        local_types.setdefault(a.id, set()).add(ty)
+        for name, tys in local_types.items():
+            if tys == {'bytes'}:
+                bytes_names.add(name)
+        int_names = set(n for n, tys in local_types.items() if tys == {'int'})
+        str_names = set(n for n, tys in local_types.items() if tys == {'str'})
+        _orig = _vtype
+
+        def _vt(expr, bn, be=()):
+            if isinstance(expr, ast.Name) and expr.id in int_names:
+                return 'int'
+            if isinstance(expr, ast.Name) and expr.id in str_names:
+                return 'str'
+            return _orig(expr, bn, be)
+        for n in nodes:
+            if isinstance(n, ast.Compare) and len(n.ops) == 1 and isinstance(n.ops[0], (ast.Eq, ast.NotEq)):
+                lt, rt = _vt(n.left, bytes_names, bytes_exprs), _vt(n.comparators[0], bytes_names, bytes_exprs)
+                if lt and rt and lt != rt and (isinstance(n.left, ast.Name) or isinstance(n.comparators[0], ast.Name)) \
+                        and not (_orig(n.left, bytes_names, bytes_exprs) and _orig(n.comparators[0], bytes_names, bytes_exprs)):
+                    yield n, ('comparison of %s with %s is constant %s on Python 3 (the local holds an element of a bytes value)'
+                              % (lt, rt, 'False' if isinstance(n.ops[0], ast.Eq) else 'True'))
     for n in nodes:
         if isinstance(n, ast.Compare) and len(n.ops) == 1:
             lt = _vtype(n.left, bytes_names, bytes_exprs)
@@ -328,6 +363,26 @@ def run(rep):
     rep.check('R17.d', fkey(jr_init, 'ClasticJSONEncoder(dev_mode=...)'), ok,
               'JSONRender forwards dev_mode to its encoder' if ok else 'JSONRender does not forward dev_mode to the encoder',
               simple, jr_init.node)
+    # every encoder / JSON renderer constructed by a renderer class forwards the renderer's dev_mode
+    # (a subclass that rebuilds self.json_encoder without it silently leaves dev mode)
+    for q, fi_ in sorted(simple.functions.items()):
+        if fi_.cls is None or q in ('JSONRender.__init__', 'BasicRender.__init__'):
+            continue
+        for c in walk_body(fi_.node):
+            if isinstance(c, ast.Call) and call_tail(c) in ('ClasticJSONEncoder', 'JSONRender', 'JSONPRender'):
+                dv = kwarg(c, 'dev_mode')
+                ok = dv is not None and norm(dv) in ('self.dev_mode', 'dev_mode', 'True')
+                rep.check('R17.d', fkey(fi_, c), ok, 'encoder/renderer constructed with the instance\'s dev_mode' if ok else
+                          '%s constructs %s without forwarding dev_mode: unknown objects raise TypeError instead of degrading to repr'
+                          % (q, call_tail(c)), simple, c)
+    # and nobody re-binds the encoder of a renderer after construction
+    for q, fi_ in sorted(simple.functions.items()):
+        for s in stmts_of(fi_.node):
+            if isinstance(s, ast.Assign) and norm(s.targets[0]) == 'self.json_encoder' and q != 'JSONRender.__init__':
+                v = s.value
+                ok = isinstance(v, ast.Call) and kwarg(v, 'dev_mode') is not None and norm(kwarg(v, 'dev_mode')) in ('self.dev_mode', 'dev_mode')
+                rep.check('R17.d', fkey(fi_, 'self.json_encoder'), ok, 're-bound encoder keeps dev_mode' if ok else
+                          '%s re-binds self.json_encoder without dev_mode' % q, simple, s)
     enc_init = simple.func('ClasticJSONEncoder.__init__')
     sets = [s for s in stmts_of(enc_init.node) if isinstance(s, ast.Assign) and norm(s.targets[0]) == 'self.dev_mode']
     ok = len(sets) == 1 and isinstance(sets[0].value, ast.Call) and call_tail(sets[0].value) == 'pop' and \
